@@ -415,6 +415,11 @@ X("verus_threshold_lemmas", "verus", _tables.make_runner(("thresholds",)), ["C07
   "number-theoretic side facts decided by computation: early-out thresholds of both moderate stages are right AND tight (10^-343 vs 2^-1075, 10^309 vs 2^1024, f32 analogues, Bellerophon +-350/310), tie-window bounds (5^23 < 2^54 < 5^24 ...), exact-product bound 5^27 < 2^64, fast-path limits, longest halfway expansions have 768 / 113 digits, capacity bounds of L-CAP",
   ["num::Float constants (SMALLEST/LARGEST_POWER_OF_TEN, *_ROUND_TO_EVEN, *_FAST_PATH, MAX_DIGITS)", "bigint::BIGINT_BITS"])
 
+X("c12_verus_limb_chain_induction", "verus", _tables.make_runner(("induction",)), ["C12"],
+  "UNBOUNDED induction over the scalar contracts (lemma over contracts, Verus): for EVERY vector length, if each limb step satisfies the contract of scalar_mul / scalar_add (out_i + 2^64 c_{i+1} == x_i y + c_i; obligations c12_scalar_mul / c12_scalar_add, proved by Kani for all u64 operands) and the steps are chained over all limbs in order, then the vector with the final carry pushed (or omitted when zero) is exactly val(x) * y + carry_in; pushing a limb adds limb * 2^(64 len); a trailing zero limb (normalize) keeps the value; k leading zero limbs (shl_limbs) multiply it by 2^(64k). This removes the DATA bound from the bounded small_mul / small_add_from obligations: what they still establish only up to their stated length is the loop STRUCTURE (each limb visited once, in order, carry threaded, final carry pushed), which does not depend on limb values.",
+  ["bigint::small_mul", "bigint::small_add_from", "bigint::scalar_mul", "bigint::scalar_add", "bigint::normalize", "bigint::shl_limbs"],
+  note="Pure mathematics over the contracts: no text of /repo enters this obligation, so no change to /repo can make it fail; it strengthens what the Kani obligations on the real functions imply and is never counted as a proof of those functions.")
+
 # --------------------------------------------------------------------------- C13 (HeapVec, alloc configurations)
 HV = "heapvec::HeapVec::"
 for nm, b in (("c13_heap_ops_len0_1", "pre-lengths 0 and 1"), ("c13_heap_ops_len3", "pre-length 3")):
